@@ -2,7 +2,7 @@
 """Store confirmed seeded changes under /verif/seeded/<prop>-<k>/ (patch.diff, demonstration, meta.json)."""
 import sys, os, json, shutil, glob
 src_root = sys.argv[1] if len(sys.argv) > 1 else '/tmp/mut/out'
-tag = 'r2' if src_root.rstrip('/').endswith('out2') else ('r3' if src_root.rstrip('/').endswith('out3') else '')   # second-round seeds are stored as <prop>-r2m<k>
+tag = 'r2' if src_root.rstrip('/').endswith('out2') else ('r3' if src_root.rstrip('/').endswith('out3') else ('r4' if src_root.rstrip('/').endswith('out4') else ''))   # second-round seeds are stored as <prop>-r2m<k>
 for d in sorted(glob.glob(os.path.join(src_root, 'C*', 'm*'))):
     prop, k = d.split('/')[-2], d.split('/')[-1]
     conf = '/tmp/mut/confirm/%s-%s%s.json' % (prop, tag, k)
